@@ -19,7 +19,7 @@ echo "## demo with patch" >> $OUT; run_demo > $OUT.tmp; cat $OUT.tmp >> $OUT; gr
 mv $DEST /tmp/_demo_$ID_$K.rs
 echo "## suite with patch" >> $OUT
 timeout 1500 cargo test -p honeycomb-core -p honeycomb-kernels --offline 2>&1 | grep "test result\|FAILED\|failed" > $OUT.tmp; cat $OUT.tmp >> $OUT
-grep -q "FAILED\|failed" $OUT.tmp && S=fail || S=pass
+grep -q "test result: FAILED\|error: test failed" $OUT.tmp && S=fail || S=pass
 [ -s $OUT.tmp ] || S=nobuild
 git checkout -q -- . ; git clean -fdq -e target; rm -f $OUT.tmp /tmp/_demo_$ID_$K.rs
 echo "{\"demo_without_patch\": \"$D0\", \"demo_with_patch\": \"$D1\", \"suite_with_patch\": \"$S\", \"demo_dest\": \"$DEST\"}" > $M/confirm.json
